@@ -3,6 +3,7 @@
 
 pub mod alloc;
 pub mod bridge;
+pub mod diff;
 pub mod gen;
 pub mod ledger;
 pub mod model;
